@@ -107,6 +107,11 @@ def run(repo, chk):
     chk.ob("R07.3", "overlay.HandlerCollection.proceed:matched-levels-stay-pending", ok, pr.where,
            "a non-immediate selector level is carried into every callee whether or not it matched here (same accumulator): re-entered nested calls keep contributing their values to the outermost call's record"
            + (f" (conditions of the carry: {conds(P.keeps[0], P.loop)})" if P.keeps else " (no carry found)"))
+    gets = [n for n in ast.walk(P.loop) if isinstance(n, ast.Assign) and isinstance(n.value, ast.Call) and norm(n.value.func) == "_selector_fit_cache.get"]
+    ok = len(gets) == 1 and expand(gets[0].value, pr.node) == f"_selector_fit_cache.get(({P.fn}, {P.sel}))" \
+        and all(expand(t, pr.node) == f"_selector_fit_cache[{P.fn}, {P.sel}]" for n in ast.walk(pr.node) if isinstance(n, ast.Assign) for t in n.targets if norm(t).startswith("_selector_fit_cache["))
+    chk.ob("R07.3", "overlay.HandlerCollection.proceed:fit-decided-per-function-object", ok, pr.where,
+           "whether a call belongs to a selector level is remembered per function OBJECT and selector: two functions that share a name (closures of one factory) are never taken for one another, so a record only holds values of calls that match")
     # ---------------- R07.4
     tc = repo.func("interpret.Total.close")
     ftc = facts_of(tc)
